@@ -227,6 +227,37 @@ theorem lu_L_stable (A : Nat → Nat → K) (i n : Nat) (h : i < n) (r : Nat) :
         simp only [stage, h1, h2, if_false]
       rw [this, ih (by omega)]
 
+/-- the defining equations of the final factors (no pivot hypothesis) -/
+theorem lu_U_eq (A : Nat → Nat → K) (n i c : Nat) (hi : i < n) (hic : i ≤ c) :
+    (lu A n).U i c = A i c - ∑ j ∈ range i, (lu A n).L i j * (lu A n).U j c := by
+  rw [lu_U_stable A i n hi c]
+  show (stage A i (lu A i)).U i c = _
+  simp only [stage, hic, and_self, if_true]
+  congr 1
+  apply sum_congr rfl
+  intro j hj
+  have hj' := mem_range.mp hj
+  rw [lu_U_stable A j n (by omega) c, lu_L_stable A j n (by omega) i]
+  by_cases h : j + 1 = i
+  · rw [h]
+  · rw [lu_U_stable A j i (by omega) c, lu_L_stable A j i (by omega) i]
+
+theorem lu_L_eq (A : Nat → Nat → K) (n i r : Nat) (hi : i < n) (hir : i < r) :
+    (lu A n).L r i
+      = (A r i - ∑ j ∈ range i, (lu A n).L r j * (lu A n).U j i) / (lu A n).U i i := by
+  rw [lu_L_stable A i n hi r, lu_U_stable A i n hi i]
+  show (stage A i (lu A i)).L r i = _ / (stage A i (lu A i)).U i i
+  simp only [stage, hir, and_self, if_true, le_refl]
+  congr 2
+  apply sum_congr rfl
+  intro j hj
+  have hj' := mem_range.mp hj
+  have hji : ¬ (j = i ∧ True) := by omega
+  rw [if_neg hji, lu_U_stable A j n (by omega) i, lu_L_stable A j n (by omega) r]
+  by_cases h : j + 1 = i
+  · rw [h]
+  · rw [lu_U_stable A j i (by omega) i, lu_L_stable A j i (by omega) r]
+
 /-- `L` unit lower triangular, `U` upper triangular, `L·U = A` on the leading `n × n` block -/
 structure IsLU (n : Nat) (A L U : Nat → Nat → K) : Prop where
   L_diag : ∀ i, i < n → L i i = 1
